@@ -360,7 +360,7 @@ def fh_ids(x):
     """ids of the closures of the apply_cfg_factory nodes of a factory tree"""
     if not isinstance(x, list) or not x:
         return []
-    out = [x[2]] if x[0] == "FH" else []
+    out = [(x[2], set(i for i, _, _ in fac_leaves(x[1])))] if x[0] == "FH" else []
     for y in x[1:]:
         if isinstance(y, list):
             out += fh_ids(y)
@@ -481,12 +481,12 @@ def why_fac(case, impl, model):
         tree = sx_parse(split_case(case)[0])
     except Exception:
         return "shape"
-    for gid in fh_ids(tree):
+    for gid, lids in fh_ids(tree):
         tag = "g%s(" % gid
         for k, e in enumerate(evs):
             if e.startswith(tag):
-                rr = [re.match(r"r\d+@(\d+):(\S+)$", x) for x in evs[:k]]
-                rr = [(int(m.group(1)), m.group(2)) for m in rr if m]
+                rr = [re.match(r"r(\d+)@(\d+):(\S+)$", x) for x in evs[:k]]
+                rr = [(int(m.group(2)), m.group(3)) for m in rr if m and m.group(1) in lids]
                 if rr:
                     last = max(w for w, _ in rr)
                     if any(a != "o" for w, a in rr if w == last):
